@@ -4,7 +4,7 @@ import Model.BTreeCow
 /-!
 driver ops of C19 (prefix `c19.`).
 
-`c19.hist <t> <in_order> <collapse_always> <is_set> op op …` (collapse_always: which `_delete` variant the code
+`c19.hist <t> <in_order> <collapse_always> <collapse_on_error> <is_set> op op …` (collapse_always: which `_delete` variant the code
 implements, see `Model.BTree.deleteRoot`; probed by the harness on every run) runs a whole history on the model and prints one result token per op.
 Handles: tree 0 is created by the header; `C,h,io` appends a clone; `c,h` appends a cursor.
 
@@ -181,8 +181,8 @@ def step (s : St) (tok : String) : St × String :=
       | _, _ => (s, "!")
   | [] => (s, "!")
 
-def runHist (t : Nat) (io : Bool) (ca : Bool) (isSet : Bool) (ops : List String) : String :=
-  let tr := Tree.empty t io ca
+def runHist (t : Nat) (io : Bool) (ca ce : Bool) (isSet : Bool) (ops : List String) : String :=
+  let tr := Tree.empty t io ca ce
   let s0 : St := { trees := #[⟨tr, []⟩], digs := #[digest tr], curs := #[], isSet := isSet }
   let (_, out) := ops.foldl (fun (acc : St × Array String) tok =>
     let (s', r) := step acc.1 tok
@@ -300,8 +300,8 @@ def cowStep (s : CowSt) (tok : String) : CowSt × String :=
   | [] => (s, "!")
 
 open Model.BTreeCow in
-def runCow (t : Nat) (io ca isSet : Bool) (ops : List String) : String :=
-  let (w, hd) := newTree { heap := #[], nextCreator := 0 } t io ca
+def runCow (t : Nat) (io ca ce isSet : Bool) (ops : List String) : String :=
+  let (w, hd) := newTree { heap := #[], nextCreator := 0 } t io ca ce
   let s0 : CowSt := { w := w, hs := #[hd], ser := #[], nxt := 0, isSet := isSet }
   let (_, out) := ops.foldl (fun (acc : CowSt × Array String) tok =>
     let (s', r) := cowStep acc.1 tok
@@ -311,20 +311,22 @@ def runCow (t : Nat) (io ca isSet : Bool) (ops : List String) : String :=
 end C19
 
 def handleC19 : List String → Option String
-  | "c19.hist" :: t :: io :: ca :: kind :: ops => do
+  | "c19.hist" :: t :: io :: ca :: ce :: kind :: ops => do
     let t ← t.toNat?
     let io ← parseBool io
     let ca ← parseBool ca
+    let ce ← parseBool ce
     let isSet ← parseBool kind
     if t < 3 then some "err ValueError" else
-    some (C19.runHist t io ca isSet ops)
-  | "c19.cow" :: t :: io :: ca :: kind :: ops => do
+    some (C19.runHist t io ca ce isSet ops)
+  | "c19.cow" :: t :: io :: ca :: ce :: kind :: ops => do
     let t ← t.toNat?
     let io ← parseBool io
     let ca ← parseBool ca
+    let ce ← parseBool ce
     let isSet ← parseBool kind
     if t < 3 then some "err ValueError" else
-    some (C19.runCow t io ca isSet ops)
+    some (C19.runCow t io ca ce isSet ops)
   | ["c19.search", key, ks] => do
     -- search_in_node on a node whose element keys are `ks` (comma separated, `-` = empty)
     let key ← key.toNat?
